@@ -468,14 +468,23 @@ class Parser:
         node.ctx = context
         return node
 
+    def literal_eval(self, token: TokenInfo) -> Any:
+        """Evaluate a literal token; an error of the literal is reported at the token, not relative to its own text."""
+        try:
+            return ast.literal_eval(token.string)
+        except SyntaxError as err:
+            self.raise_syntax_error_known_location(err.msg, token)
+        except ValueError as err:  # e.g. integer string conversion limit
+            self.raise_syntax_error_known_location(str(err), token)
+
     def ensure_real(self, number: TokenInfo) -> float | int:
-        value = ast.literal_eval(number.string)
+        value = self.literal_eval(number)
         if not isinstance(value, float | int):
             self.raise_syntax_error_known_location("real number required in complex literal", number)
         return value
 
     def ensure_imaginary(self, number: TokenInfo) -> complex:
-        value = ast.literal_eval(number.string)
+        value = self.literal_eval(number)
         if not isinstance(value, complex):
             self.raise_syntax_error_known_location("imaginary number required in complex literal", number)
         return value
@@ -491,9 +500,9 @@ class Parser:
         return s.encode()[0]
 
     def _concat_strings_in_constant(self, parts: list[TokenInfo]) -> ast.Constant:
-        s = ast.literal_eval(parts[0].string)
+        s = self.literal_eval(parts[0])
         for ss in parts[1:]:
-            s += ast.literal_eval(ss.string)
+            s += self.literal_eval(ss)
         args = {
             "value": s,
             "lineno": parts[0].start[0],
